@@ -14,6 +14,7 @@ func main() {
 	if len(os.Args) < 2 {
 		usage()
 	}
+	ensureRaceLog()
 	installHook()
 	switch os.Args[1] {
 	case "check":
@@ -22,6 +23,8 @@ func main() {
 		os.Exit(workerMain(os.Args[2:]))
 	case "replay":
 		os.Exit(replayMain(os.Args[2:]))
+	case "runone":
+		os.Exit(runOneMain(os.Args[2:]))
 	case "one":
 		os.Exit(oneMain(os.Args[2:]))
 	case "gencheck":
